@@ -194,7 +194,9 @@ def _result_kind_of_block(blk, rec=None):
     for st in blk["stmts"]:
         if st["k"] == "assign" and st["pl"]["l"] == 0 and not st["pl"]["p"]:
             rv = st["rv"]
-            if rv["k"] == "agg" and rv.get("ak") == "adt" and rv.get("adt", "").split("<")[0] in ("std::result::Result", "core::result::Result") and rv.get("variant") in ("Ok", "Err"):
+            if rv["k"] == "agg" and st.get("ret_kind"):
+                kind = st["ret_kind"]
+            elif rv["k"] == "agg" and rv.get("ak") == "adt" and rv.get("adt", "").split("<")[0] in ("std::result::Result", "core::result::Result") and rv.get("variant") in ("Ok", "Err"):
                 kind = rv["variant"]
                 # Ok(None) / Ok(Some(_)): the payload is an Option literal built in this block
                 if kind == "Ok" and rv.get("ops") and rv["ops"][0].get("k") in ("move", "copy") and not rv["ops"][0]["pl"]["p"]:
@@ -450,6 +452,12 @@ def _thread_chain(rec, start, P, S, kind, known=None, max_steps=40, no_calls=Fal
                 continue
             B.pop(tl, None)
             PB.pop(tl, None)
+            if want == "0" and want2 is not None and rv["k"] == "agg" and rv.get("ak") == "adt" and rv.get("adt", "").split("<")[0] in ("std::result::Result", "core::result::Result") and rv.get("variant") == "Ok" and len(rv.get("ops") or []) == 1 and rv["ops"][0].get("k") in ("move", "copy") and not rv["ops"][0]["pl"]["p"] and rv["ops"][0]["pl"]["l"] in S2:
+                # the known Option wrapped again (`Ok(cmd)`): the same kind of result in a new place
+                S.add(tl)
+                if tl == 0:
+                    st["ret_kind"] = kind
+                continue
             if rv["k"] == "use" and rv["op"].get("k") in ("move", "copy"):
                 src = rv["op"]["pl"]
                 if not src["p"] and src["l"] in S:
@@ -580,6 +588,7 @@ def thread_known_variants(rec):
         if not t or t["k"] != "goto" or blk["cleanup"] or not isinstance(t["t"], int) or t["t"] >= n0:
             continue
         last = None
+        optlit = {}
         for st in blk["stmts"]:
             if st["k"] != "assign":
                 continue
@@ -589,9 +598,16 @@ def thread_known_variants(rec):
                 if head in ("std::option::Option", "core::option::Option") and rv.get("variant") in ("Some", "None"):
                     last = (st["pl"]["l"], "Opt:" + rv["variant"])
                 elif head in ("std::result::Result", "core::result::Result") and rv.get("variant") in ("Ok", "Err"):
-                    last = (st["pl"]["l"], rv["variant"])
+                    kind_ = rv["variant"]
+                    if kind_ == "Ok" and rv.get("ops") and rv["ops"][0].get("k") in ("move", "copy") and not rv["ops"][0]["pl"]["p"] and optlit.get(rv["ops"][0]["pl"]["l"]):
+                        kind_ = "Ok:" + optlit[rv["ops"][0]["pl"]["l"]]
+                    last = (st["pl"]["l"], kind_)
                 elif last and st["pl"]["l"] == last[0]:
                     last = None
+                if head in ("std::option::Option", "core::option::Option") and rv.get("variant") in ("Some", "None"):
+                    optlit[st["pl"]["l"]] = rv["variant"]
+                else:
+                    optlit.pop(st["pl"]["l"], None)
             elif last and st["pl"]["l"] == last[0]:
                 last = None
         if not last or last[0] == 0:
@@ -885,6 +901,28 @@ def desugar_combinators(prog, rec):
                            "term": {"k": "switch", "op": {"k": "move", "pl": {"l": d2, "p": []}}, "ty": "isize", "targets": [["0", n_ok], ["1", n_err]], "otherwise": n_err, "span": sp, "exp": ex, "desugared": cn}})
             blocks[bi]["stmts"].append(asg({"l": d1, "p": []}, {"k": "discr", "pl": {"l": xl, "p": []}, "adt": "std::option::Option", "variants": [["0", "None"], ["1", "Some"]]}))
             blocks[bi]["term"] = {"k": "switch", "op": {"k": "move", "pl": {"l": d1, "p": []}}, "ty": "isize", "targets": [["0", n_none], ["1", n_some]], "otherwise": n_none, "span": sp, "exp": ex, "desugared": cn}
+            changed = True
+            continue
+        if cn in ("std::result::Result::or_else", "std::result::Result::and_then") and len(t["args"]) == 2 and t["args"][0].get("k") in ("move", "copy") and not t["args"][0]["pl"]["p"]:
+            # or_else: Ok(v) => Ok(v), Err(e) => f(e); and_then: Ok(v) => f(v), Err(e) => Err(e) (library source)
+            x, f = t["args"]
+            kdef = _closure_def_of(rec, f)
+            kb = prog.bodies.get(kdef) if kdef else None
+            if kb is None or kb.coroutine or kb.arg_count != 2 or len(kb.blocks) > 300 or kb.path == rec["path"]:
+                continue
+            xl = x["pl"]["l"]
+            sp, ex, cl = t.get("span"), t.get("exp", ""), blocks[bi]["cleanup"]
+            dest = copy.deepcopy(t["dest"])
+            dl = len(rec["locals"])
+            rec["locals"].append({"ty": "isize", "ty_def": None, "user": False})
+            keep_v, call_v, idx = ("Ok", "Err", 1) if cn.endswith("or_else") else ("Err", "Ok", 0)
+            kidx = 0 if keep_v == "Ok" else 1
+            n_keep = len(blocks)
+            blocks.append({"cleanup": cl, "stmts": [{"k": "assign", "pl": copy.deepcopy(dest), "rv": {"k": "agg", "ak": "adt", "adt": "std::result::Result", "variant": keep_v, "fields": ["0"], "ops": [{"k": "move", "pl": {"l": xl, "p": [["dc", keep_v, kidx], ["f", 0, "0"]]}}]}, "span": sp, "exp": ex}], "term": {"k": "goto", "t": t["t"], "span": sp, "exp": ex}})
+            n_call = _splice_closure(prog, rec, _closure_rec(prog, kb), f, [{"k": "move", "pl": {"l": xl, "p": [["dc", call_v, idx], ["f", 0, "0"]]}}], t["t"], t["unwind"], cl, sp, ex, lambda l0, dest=dest: [{"k": "assign", "pl": copy.deepcopy(dest), "rv": {"k": "use", "op": {"k": "move", "pl": {"l": l0, "p": []}}}, "span": sp, "exp": ex}])
+            n_ok, n_err = (n_keep, n_call) if keep_v == "Ok" else (n_call, n_keep)
+            blocks[bi]["stmts"].append({"k": "assign", "pl": {"l": dl, "p": []}, "rv": {"k": "discr", "pl": {"l": xl, "p": []}, "adt": "std::result::Result", "variants": [["0", "Ok"], ["1", "Err"]]}, "span": sp, "exp": ex})
+            blocks[bi]["term"] = {"k": "switch", "op": {"k": "move", "pl": {"l": dl, "p": []}}, "ty": "isize", "targets": [["0", n_ok], ["1", n_err]], "otherwise": n_err, "span": sp, "exp": ex, "desugared": cn}
             changed = True
             continue
         if cn == "std::result::Result::map" and len(t["args"]) == 2:
@@ -1327,9 +1365,21 @@ def _drop_borrow(rec, blk, op, depth=0):
                 rv = st["rv"]
                 if rv["k"] == "ref":
                     del b2["stmts"][i]
+                    if rv["pl"]["p"] and rv["pl"]["p"][0][0] == "d" and not _mentions_local(rec["blocks"], rv["pl"]["l"], limit=2):
+                        # `&mut *tmp` of a `tmp = &mut place` that nothing else uses
+                        _drop_borrow_def(rec, rv["pl"]["l"])
                 elif rv["k"] == "use":
                     del b2["stmts"][i]
                     _drop_borrow(rec, b2, rv["op"], depth + 1)
+                return
+
+
+def _drop_borrow_def(rec, l):
+    for b2 in rec["blocks"]:
+        for i in range(len(b2["stmts"]) - 1, -1, -1):
+            st = b2["stmts"][i]
+            if st["k"] == "assign" and st["pl"]["l"] == l and not st["pl"]["p"] and st["rv"]["k"] == "ref":
+                del b2["stmts"][i]
                 return
 
 
